@@ -88,11 +88,11 @@ subst escapes.go $'\tl.t.Unlock()\n\tdefer l.t.Lock()\n\tb, err := l.r.ReadByte(
 	$'\tl.t.Unlock()\n\tb, err := l.r.ReadByte()\n\tif err != nil {\n\t\treturn b, err\n\t}\n\tl.t.Lock()\n'
 expect a-readbyte-error-path-no-relock 1 "different lock states|unlock without lock|without the lock"
 
-fresh # (b) backend.SetSize moved inside the WithLock closure: still fine (a backend write is local)
+fresh # (b) backend.SetSize moved inside the WithLock closure: rejected (a backend that repaints synchronously would wait for the loop, which waits for the lock)
 subst terminal.go $'\t\tt.announceScreen()\n\t})\n\n\tif t.backend == nil {\n\t\treturn nil\n\t}\n\n\treturn t.backend.SetSize(w, h)\n' \
 	$'\t\tt.announceScreen()\n\t\tif t.backend != nil {\n\t\t\terr = t.backend.SetSize(w, h)\n\t\t}\n\t})\n\treturn err\n'
 subst terminal.go $'func (t *terminal) Resize(w, h int) error {\n' $'func (t *terminal) Resize(w, h int) error {\n\tvar err error\n'
-expect b-setsize-under-lock 0
+expect b-setsize-under-lock 1 "blocking read while holding the lock|holding the lock"
 
 fresh # (c) SetFrontend without WithLock
 subst terminal.go $'\tt.WithLock(func() {\n\t\tt.frontend = f\n\t\tt.mainScreen.SetFrontend(f)\n\t\tt.altScreen.SetFrontend(f)\n\t})\n' \
